@@ -39,6 +39,9 @@ static int helper(int x) { return x * 3 + 1; }
 int exported_one(int x) { int s = 0; for (int i = 0; i < x; i++) s += helper(i); return s; }
 int exported_two(int x) { return exported_one(x) ^ 0x55; }
 int big_table[4096];
+/* user programs may define symbols the kernel also has; the file names below contain "linux" (GOOS-style) */
+void _stext(void) {}
+void _text(void) {}
 int main(int argc, char **argv) { printf("%d\n", exported_two(argc) + big_table[argc]); return 0; }
 `
 
@@ -63,7 +66,7 @@ func buildReal() {
 		{"-O1", "-no-pie", "-static"},
 	}
 	for i, v := range variants {
-		out := filepath.Join(dir, fmt.Sprintf("bin%d", i))
+		out := filepath.Join(dir, fmt.Sprintf("bin%d_linux_amd64", i))
 		args := append(append([]string{}, v...), "-o", out, src)
 		if err := exec.Command(gcc, args...).Run(); err != nil {
 			continue
